@@ -413,3 +413,40 @@ package git
 //gvc:  requires nn: w != nil && w.r != nil
 //gvc:  ensures restored: err != nil && calls("autoAddModifiedAndDeleted") == 1 && lastres("autoAddModifiedAndDeleted") == nil ==> calls("SetIndex") >= 1
 //gvc:end
+
+// The raw filesystem under the wrapper is a capability only the functions
+// above may touch: a function of this package that selects
+// worktreeFilesystem.Filesystem, or reaches one of its methods by promotion
+// (the wrapper not overriding it), has to be under contract for C26 -- its
+// sinks are what confines the paths that get through. Join and Root are
+// string / accessor methods of billy.Filesystem that touch nothing.
+//gvc:guard worktreeFilesystem.Filesystem
+//gvc:  props C26
+//gvc:  allow Join Root
+//gvc:end
+
+// Worktree.Filesystem is the documented accessor for the raw filesystem: it
+// hands the capability to the caller and performs no operation on it.
+//gvc:func (*Worktree).Filesystem
+//gvc:  props C26
+//gvc:  theory int
+//gvc:  opt coarse
+//gvc:  opt frame args
+//gvc:  requires nn: w != nil && w.filesystem != nil
+//gvc:  sink * requires nocall: false
+//gvc:  ensures same: result == w.filesystem.Filesystem
+//gvc:end
+
+// reusableRootFS re-wraps: whatever it returns is a worktreeFilesystem with
+// the protection flags of the worktree's own wrapper, and the raw filesystem
+// is only asked for its root.
+//gvc:func (*Worktree).reusableRootFS
+//gvc:  props C26
+//gvc:  theory int
+//gvc:  opt coarse
+//gvc:  opt frame args
+//gvc:  opt inline
+//gvc:  requires nn: w != nil && w.filesystem != nil
+//gvc:  results rfs done
+//gvc:  ensures wrapped: rfs != nil && rfs.protectNTFS == w.filesystem.protectNTFS && rfs.protectHFS == w.filesystem.protectHFS
+//gvc:end
